@@ -112,6 +112,241 @@ def step_quadratic_ob():
               f"{A_}::{cls}.get_lb_heteroscedastic_term_i", group="lb-quadratic")
 
 
+def step_quadratic_general_ob():
+    """step link, Dx > 1: the heteroscedastic part of the quadratic term through the joint of (g, h), g = a'(y - Mx - b), h = w'x + w0:
+       1/2 E[1(h>=0) g^2] = 1/2 [ Z (c0^2 + V) + 2 c0 c1 E[h;h>=0] + c1^2 E[h^2;h>=0] ],  c1 = S_gh / S_hh, c0 = m_g - c1 m_h,
+       V = S_gg - S_gh^2 / S_hh   (conditional moments of g given h), one-sided truncated moments of h as in the scalar case.
+    The library goes through get_density_of_linear_sum, get_marginal, condition_on_explicit of a 2-dimensional joint (closed-form 2 x 2
+    inverse) and the truncated-measure integrals."""
+    cls = "HeteroscedasticHeavisideConditional"
+
+    def run():
+        from ..nf import Val
+        from ..dim import D
+        from ..intrinsics import elementwise_inf
+        nf.ST.generic_nonzero = True
+        I = build.new_interp(facts={("lt", "1", "Dx"): True, ("le", "Dx", "1"): False})
+        Dy, Dk, Da, N, Dx = sym("Dy"), sym("Dk"), sym("Da"), sym("N"), sym("Dx")
+        c = I.construct(cls, dict(M=nf.atom("M(c)", [1, Dy, Dx]), b=nf.atom("b(c)", [1, Dy]), A=nf.atom("A(c)", [1, Dy, Da]), W=nf.atom("W(c)", [Dk, Dx + 1])))
+        px = build.pdf(I, N, Dx, "px")
+        y = build.points("y", N, Dy)
+        Wi, ai = nf.atom("W_i", [Dx + 1]), nf.atom("a_i", [Dy])
+        got = I.call_method(c, "get_lb_heteroscedastic_term_i", [px, y, Wi, ai])
+        w0 = Val([], nf.slice_axis(Wi, 0, 0, 1).terms)
+        w = nf.slice_axis(Wi, 0, 1, Dx + 1)
+        mu, S = px.f["mu"], px.f["Sigma"]
+        M1 = Val(c.f["M"].axes[1:], c.f["M"].terms)
+        b1 = Val(c.f["b"].axes[1:], c.f["b"].terms)
+        aM = nf.einsum("y,yx->x", ai, M1)
+        mg = nf.add(nf.add(nf.einsum("y,ny->n", ai, y), nf.einsum("y,y->", ai, b1), -1), nf.einsum("x,nx->n", aM, mu), -1)
+        mh = nf.add(nf.einsum("x,nx->n", w, mu), w0)
+        Sgg, Shh = nf.einsum("x,nxz,z->n", aM, S, aM), nf.einsum("x,nxz,z->n", w, S, w)
+        Sgh = nf.neg(nf.einsum("x,nxz,z->n", aM, S, w))
+        rS = nf.elementwise("Recip", Shh)
+        c1 = nf.mul(Sgh, rS)
+        c0 = nf.add(mg, nf.mul(c1, mh), -1)
+        V = nf.add(Sgg, nf.mul(nf.mul(Sgh, Sgh), rS), -1)
+        sh = nf.elementwise("Sqrt", Shh)
+        z = nf.mul(mh, nf.elementwise("Sqrt", nf.elementwise("Recip", Shh)))
+        Ph, ph = elementwise_inf("Phi", z), elementwise_inf("phi", z)
+        T1 = nf.add(nf.mul(mh, Ph), nf.mul(sh, ph))
+        T2 = nf.add(nf.mul(mh, T1), nf.mul(Shh, Ph))
+        ref = nf.scale(nf.add(nf.add(nf.mul(Ph, nf.add(nf.mul(c0, c0), V)), nf.scale(nf.mul(nf.mul(c0, c1), T1), 2)), nf.mul(nf.mul(c1, c1), T2)), D(1) / 2)
+        if not isinstance(got, Val) or len(got.axes) != 2:
+            from ..core import Refuted
+            raise Refuted(f"get_lb_heteroscedastic_term_i returns shape {getattr(got, 'shape', None)} (expected [1, N])", f"{A_}::{cls}.get_lb_heteroscedastic_term_i")
+        g = Val(got.axes[1:], got.terms)
+        d = nf.diff(g, ref, what="1/2 E[1(h>=0) g^2]")
+        if d and nf.zero_mod_recip(nf.add(g, ref, -1)):
+            d = []
+        return d, dict(funcs=funcs_of(I))
+    return Ob(f"lb-quadratic/{cls}/Dx>1", run,
+              "step link, Dx > 1: get_lb_heteroscedastic_term_i == 1/2 E_n[1(h>=0) (a'(y_n - Mx - b))^2] through the conditional moments of g = a'(y - Mx - b) given h "
+              "(2 x 2 joint, closed-form inverse) and the one-sided truncated moments of h",
+              f"{A_}::{cls}.get_lb_heteroscedastic_term_i", group="lb-quadratic")
+
+
+def relu_quadratic_ob():
+    """ReLU link, Dx = 1 (thorough tier: about three minutes of rational normalisation): the quadratic term of the lower bound is assembled as
+       E1 (c0^2 + V) + 2 c0 c1 E2 + c1^2 E3,   E_k = int_0^inf h^k N(h; m_h, S_hh) exp(B(h; omega)) dh,
+    c0, c1, V the conditional moments of g = a'(y - Mx - b) given h (V = 0 for scalar x).  The truncated moments E_k of the tilted density
+    are taken from the library pieces verified elsewhere (C05 linear sum, C01 hadamard, C20 truncated integrals), the assembly is the claim."""
+    cls = "HeteroscedasticReLUConditional"
+
+    def run():
+        from ..nf import Val
+        from ..dim import D
+        nf.ST.generic_nonzero = True
+        I = build.new_interp()
+        Dy, Dk, Da, N = sym("Dy"), sym("Dk"), sym("Da"), sym("N")
+        Dx = D(1)
+        c = I.construct(cls, dict(M=nf.atom("M(c)", [1, Dy, Dx]), b=nf.atom("b(c)", [1, Dy]), A=nf.atom("A(c)", [1, Dy, Da]), W=nf.atom("W(c)", [Dk, Dx + 1])))
+        px = build.pdf(I, N, Dx, "px")
+        y = build.points("y", N, Dy)
+        Wi, ai, om = nf.atom("W_i", [Dx + 1]), nf.atom("a_i", [Dy]), nf.atom("omega", [N])
+        got = I.call_method(c, "_lower_bound_integrals", [px, y, Wi, ai, om])
+        w0 = Val([], nf.slice_axis(Wi, 0, 0, 1).terms)
+        w = nf.slice_axis(Wi, 0, 1, Dx + 1)
+        mu, S = px.f["mu"], px.f["Sigma"]
+        M1 = Val(c.f["M"].axes[1:], c.f["M"].terms)
+        b1 = Val(c.f["b"].axes[1:], c.f["b"].terms)
+        aM = nf.einsum("y,yx->x", ai, M1)
+        mg = nf.add(nf.add(nf.einsum("y,ny->n", ai, y), nf.einsum("y,y->", ai, b1), -1), nf.einsum("x,nx->n", aM, mu), -1)
+        mh = nf.add(nf.einsum("x,nx->n", w, mu), w0)
+        Sgg, Shh = nf.einsum("x,nxz,z->n", aM, S, aM), nf.einsum("x,nxz,z->n", w, S, w)
+        Sgh = nf.neg(nf.einsum("x,nxz,z->n", aM, S, w))
+        rS = nf.elementwise("Recip", Shh)
+        c1 = nf.mul(Sgh, rS)
+        c0 = nf.add(mg, nf.mul(c1, mh), -1)
+        V = nf.add(Sgg, nf.mul(nf.mul(Sgh, Sgh), rS), -1)
+        p_h = I.call_method(px, "get_density_of_linear_sum", [nf.expand_dims(w, [None, None, "k"]), nf.expand_dims(w0, [None, None])])
+        one = nf.add(om, nf.const(1))
+        r1 = nf.elementwise("Recip", one)
+        F = I.construct("LinearFactor", dict(nu=nf.expand_dims(nf.neg(r1), ["k", None]), ln_beta=nf.add(nf.neg(nf.elementwise("Log", one)), nf.mul(om, r1))))
+        tp = I.construct("TruncatedGaussianMeasure", dict(measure=I.call_method(p_h, "hadamard", [F], dict(update_full=True)), lower_limit=D(0)))
+
+        def col(v):
+            return Val(v.axes[:1], v.terms)
+        E1, E2 = col(I.call_method(tp, "integrate", ["x"])), col(I.call_method(tp, "integrate", ["x**2"]))
+        E3 = col(I.call_method(tp, "integrate", ["x**k"], dict(k=3)))
+        ref = nf.add(nf.add(nf.mul(E1, nf.add(nf.mul(c0, c0), V)), nf.scale(nf.mul(nf.mul(c0, c1), E2), 2)), nf.mul(nf.mul(c1, c1), E3))
+        g = Val(got.axes[1:], got.terms)
+        d = nf.diff(g, ref, what="ReLU quadratic term")
+        if d and nf.zero_mod_recip(nf.add(g, ref, -1)):
+            d = []
+        return d, dict(funcs=funcs_of(I))
+    return Ob(f"lb-quadratic/{cls}/Dx=1", run,
+              "ReLU link, Dx = 1: _lower_bound_integrals == E1 (c0^2 + V) + 2 c0 c1 E2 + c1^2 E3 with the conditional moments of a'(y - Mx - b) given h and the "
+              "truncated moments of the tilted density of h",
+              f"{A_}::{cls}._lower_bound_integrals", group="lb-quadratic")
+
+
+# ---------------------------------------------------------------- variational bounds: the Gaussian-form factors ARE the documented tangent bounds
+def _bound_setup(cls, scalar_input=False):
+    from ..nf import Val
+    from ..interp import Interp
+    from ..dim import D
+    nf.ST.generic_nonzero = True
+    I = build.new_interp()
+    Dy, Dk, Da, N, Dx = sym("Dy"), sym("Dk"), sym("Da"), sym("N"), (D(1) if scalar_input else sym("Dx"))
+    c = I.construct(cls, dict(M=nf.atom("M(c)", [1, Dy, Dx]), b=nf.atom("b(c)", [1, Dy]), A=nf.atom("A(c)", [1, Dy, Da]), W=nf.atom("W(c)", [Dk, Dx + 1])))
+    px = build.pdf(I, N, Dx, "px")
+    y = build.points("y", N, Dy)
+    Wi, ai, om = nf.atom("W_i", [Dx + 1]), nf.atom("a_i", [Dy]), nf.atom("omega", [N])
+    w0 = Val([], nf.slice_axis(Wi, 0, 0, 1).terms)
+    w = nf.slice_axis(Wi, 0, 1, Dx + 1)
+    return I, c, px, y, Wi, ai, om, w0, w, (Dy, Dk, Da, N, Dx)
+
+
+def _moments_h(px, w, w0):
+    """E[h], E[h^2] of h = w'x + w0 under each component of px (Wick): [N]"""
+    mu, S = px.f["mu"], px.f["Sigma"]
+    Eh = nf.add(nf.einsum("d,nd->n", w, mu), w0)
+    Eh2 = nf.add(nf.einsum("d,nde,e->n", w, S, w), nf.mul(Eh, Eh))
+    return Eh, Eh2
+
+
+def bound_factor_ob(cls):
+    """The quadratic term of the lower bound multiplies p(x) with exp(B(h; omega)), B the documented tangent bound of ln[f/(1+f)] resp.
+    of its non-Gaussian part, written as a Gaussian-form factor exp(-g/2 (w'x)^2 + nu'x + ln_beta):
+      exp link    sigma(h) >= exp( h/2 - ln(2 cosh(omega/2)) - tanh(omega/2)/(4 omega) (h^2 - omega^2) )        (Jaakkola-Jordan)
+      cosh-1 link sech(h)  >= exp( - ln cosh(omega) - tanh(omega)/(2 omega) (h^2 - omega^2) )                    (ln cosh is concave in h^2)
+      ReLU link   1/(1+h)  >= exp( - ln(1+omega) - (h - omega)/(1+omega) ),  h >= 0                              (-ln(1+h) is convex)
+    with h = w'x + w0.  Expanding in x gives (g, nu, ln_beta); the factor constructed by the library must carry exactly these."""
+    def run():
+        from ..nf import Val
+        from ..dim import D, LOG2
+        from ..interp import Interp
+        from ..core import Refuted
+        I, c, px, y, Wi, ai, om, w0, w, (Dy, Dk, Da, N, Dx) = _bound_setup(cls, scalar_input="ReLU" in cls)
+        made = []
+        orig = Interp.construct
+
+        def cons(self, clsname, kw, site=None):
+            o = orig(self, clsname, kw, site)
+            made.append(o)
+            return o
+        Interp.construct = cons
+        try:
+            I.call_method(c, "_lower_bound_integrals", [px, y, Wi, ai, om])
+        finally:
+            Interp.construct = orig
+        anchor = f"{A_}::{cls}._lower_bound_integrals"
+        d = []
+
+        def cmp(name, got, ref):
+            g = Val([a for a in got.axes if a], got.terms)          # the library carries ln_beta as [1, N]: compare up to unit axes
+            r = Val([a for a in ref.axes if a], ref.terms)
+            return [(name,) + tuple(q) for q in nf.diff(g, r, what=name)[:4]]
+        if "ReLU" in cls:
+            F = [o for o in made if o.cls == "LinearFactor"]
+            if not F:
+                raise Refuted("no LinearFactor (tangent bound of 1/(1+h)) is constructed", anchor)
+            F = F[0]
+            one_plus = nf.add(om, nf.const(1))
+            r1 = nf.elementwise("Recip", one_plus)
+            d += cmp("nu", F.f["nu"], nf.expand_dims(nf.neg(r1), ["k", None]))
+            d += cmp("ln_beta", F.f["ln_beta"], nf.add(nf.neg(nf.elementwise("Log", one_plus)), nf.mul(om, r1)))
+            return d, dict(funcs=funcs_of(I), construct=anchor)
+        F = [o for o in made if o.cls == "OneRankFactor"]
+        if not F:
+            raise Refuted("no OneRankFactor (Gaussian-form tangent bound) is constructed", anchor)
+        F = F[0]
+        if "Exp" in cls:
+            half = nf.scale(om, D(1) / 2)
+            f_om = nf.add(nf.elementwise("Log", nf.elementwise("Cosh", half)), nf.const(LOG2))
+            lam = nf.scale(nf.mul(nf.elementwise("Tanh", half), nf.elementwise("Recip", om)), D(1) / 4)       # tanh(omega/2) / (4 omega)
+            lin = D(1) / 2
+        else:
+            f_om = nf.elementwise("Log", nf.elementwise("Cosh", om))
+            lam = nf.scale(nf.mul(nf.elementwise("Tanh", om), nf.elementwise("Recip", om)), D(1) / 2)         # tanh(omega) / (2 omega)
+            lin = D(0)
+        # B = lin h - f_om - lam (h^2 - omega^2),  h = w'x + w0
+        g_ref = nf.scale(lam, 2)
+        nu_ref = nf.mul(nf.expand_dims(nf.add(nf.scale(nf.mul(lam, w0), -2), nf.const(lin)), ["k", None]), nf.expand_dims(w, [None, "k"]))
+        lb_ref = nf.add(nf.add(nf.scale(nf.add(nf.scale(om, 0), w0), lin), f_om, -1), nf.mul(lam, nf.add(nf.mul(w0, w0), nf.mul(om, om), -1)), -1)
+        d += cmp("g", F.f["g"], g_ref)
+        d += cmp("nu", F.f["nu"], nu_ref)
+        d += cmp("ln_beta", F.f["ln_beta"], lb_ref)
+        # v is w (possibly tiled over the observations)
+        v = F.f["v"]
+        vref = nf.add(nf.scale(v, 0), nf.expand_dims(w, [None, "k"]))
+        d += cmp("v", v, vref)
+        return d, dict(funcs=funcs_of(I), construct=anchor)
+    return Ob(f"bound-factor/{cls}", run,
+              "the Gaussian-form factor multiplied into p(x) for the quadratic term of the lower bound is the documented tangent bound at omega "
+              "(exp: Jaakkola-Jordan bound of the sigmoid; cosh-1: tangent of ln cosh in h^2; ReLU: tangent of -ln(1+h))",
+              f"{A_}::{cls}._lower_bound_integrals", group="bound-factor")
+
+
+def bound_logdet_ob(cls):
+    """k_func = E_q[upper tangent bound of ln(1 + f(h))] and the variational parameter is its minimiser:
+      exp    ln(1+e^h)   <= h/2 + ln(2cosh(w/2)) + tanh(w/2)/(4w) (h^2 - w^2),   omega^2 = E[h^2]
+      cosh-1 ln cosh(h)  <= ln cosh(w) + tanh(w)/(2w) (h^2 - w^2),                omega^2 = E[h^2]"""
+    def run():
+        from ..dim import D, LOG2
+        I, c, px, y, Wi, ai, om, w0, w, sizes = _bound_setup(cls)
+        Eh, Eh2 = _moments_h(px, w, w0)
+        d = []
+        k = I.call_method(c, "k_func", [px, Wi, om])
+        if "Exp" in cls:
+            half = nf.scale(om, D(1) / 2)
+            f_om = nf.add(nf.elementwise("Log", nf.elementwise("Cosh", half)), nf.const(LOG2))
+            lam = nf.scale(nf.mul(nf.elementwise("Tanh", half), nf.elementwise("Recip", om)), D(1) / 4)
+            ref = nf.add(nf.add(nf.scale(Eh, D(1) / 2), f_om), nf.mul(lam, nf.add(Eh2, nf.mul(om, om), -1)))
+        else:
+            f_om = nf.elementwise("Log", nf.elementwise("Cosh", om))
+            lam = nf.scale(nf.mul(nf.elementwise("Tanh", om), nf.elementwise("Recip", om)), D(1) / 2)
+            ref = nf.add(f_om, nf.mul(lam, nf.add(Eh2, nf.mul(om, om), -1)))
+        d += [("k_func",) + tuple(q) for q in nf.diff(k, ref, what="k_func")[:4]]
+        od = I.call_method(c, "_get_omega_dagger", [px, Wi])
+        d += [("omega_dagger",) + tuple(q) for q in nf.diff(od, nf.elementwise("Sqrt", Eh2), what="omega_dagger")[:4]]
+        return d, dict(funcs=funcs_of(I))
+    return Ob(f"bound-logdet/{cls}", run,
+              "k_func == E_q[tangent upper bound of ln(1 + f(h)) at omega] and _get_omega_dagger == sqrt(E_q[h^2]) (its minimiser: the bound is tight to second order there)",
+              f"{A_}::{cls}.k_func", group="bound-logdet")
+
+
 def obligations(tier):
     obs = []
     for cls in CLASSES:
@@ -122,11 +357,22 @@ def obligations(tier):
         obs.append(coherence_ob(cls))
     obs.append(step_logdet_ob())
     obs.append(step_quadratic_ob())
+    obs.append(step_quadratic_general_ob())
+    if tier == "thorough":
+        obs.append(relu_quadratic_ob())
+    for cls in ("HeteroscedasticExpConditional", "HeteroscedasticCoshM1Conditional", "HeteroscedasticReLUConditional"):
+        obs.append(bound_factor_ob(cls))
+    for cls in ("HeteroscedasticExpConditional", "HeteroscedasticCoshM1Conditional"):
+        obs.append(bound_logdet_ob(cls))
     return obs
 
 
-FLOORS = {"group:conditional": 4, "group:coherent": 4}
+FLOORS = {"group:conditional": 4, "group:coherent": 4, "group:lb-quadratic": 2, "group:bound-factor": 3, "group:bound-logdet": 2}
 LEVEL = "other"
-EXPLANATION = ("PARTIAL (first sentence of the property only): for all four link functions, condition_on_x has mean Mx+b and covariance AA' + A_k diag(link(Wx+w0)) A_k' "
-               "(proved), and the coherence of the returned precision / log-determinant with that covariance is decided (refuted for generic Da >= Dy: known finding F10). "
-               "NOT decided: the lower-bound inequalities, equality for the step link, tightness in the homoscedastic limit (inequalities / limits / fixed-point iteration).")
+EXPLANATION = ("PARTIAL: for all four link functions, condition_on_x has mean Mx+b and covariance AA' + A_k diag(link(Wx+w0)) A_k' (proved), and the coherence of the "
+               "returned precision / log-determinant with that covariance is decided (refuted for generic Da >= Dy: known finding F10). Step link: the log-determinant term and the "
+               "heteroscedastic quadratic term of integrate_log_conditional_y are proved exact (Dx = 1 and Dx > 1). Exp / cosh-1 / ReLU links: the Gaussian-form factors used for the "
+               "quadratic term are proved to be the documented tangent bounds (Jaakkola-Jordan bound of the sigmoid, tangent of ln cosh in h^2, tangent of -ln(1+h)), k_func is the "
+               "expectation of the tangent upper bound of ln(1+f(h)) and the variational parameter is its minimiser sqrt(E[h^2]) (exp, cosh-1). NOT decided: that these tangent "
+               "bounds are inequalities (classical convexity facts, trusted), the remaining assembly of the ReLU quadratic term (truncated moments of the tilted density), the fixed-point "
+               "iteration (lax.while_loop) and the tightness limits.")
